@@ -25,7 +25,9 @@ def episodes(prop, tier, seed):
     out = {"rand": (gen_lender.small_episodes(seed, 1500 if q else 20000), "verif"),
            "big": (gen_lender.big_episodes(seed, 27 if q else 135), "verif"),
            "flaky": (gen_lender.flaky_episodes(seed, 150 if q else 3000), "verif"),
-           "corrupt": (gen_lender.corrupt_episodes(seed, 120 if q else 2000), "verif")}
+           "corrupt": (gen_lender.corrupt_episodes(seed, 120 if q else 2000), "verif"),
+           "marked": (gen_lender.marked_episodes(seed, 240 if q else 2400), "verif"),
+           "wide-window": (gen_lender.wide_window_episodes(seed, 30 if q else 300), "verif")}
     if not q:
         out["rand-release"] = (gen_lender.small_episodes(seed + 1, 8000), "release")
         out["big-release"] = (gen_lender.big_episodes(seed + 1, 45), "release")
